@@ -48,6 +48,7 @@ package bitmap
 //@   ensures  [len]   len($r0) == len(b)
 //@   ensures  [nil]   (b == nil) == ($r0 == nil)
 //@   ensures  [same]  forall k int :: 0 <= k && k < len(b) ==> $r0[k] == b[k]
+//@   ensures  [own]   $r0 == nil || fresh_($r0)
 //@   props    C09 C11
 
 //@ func (*Bitmap).SetMultiple
